@@ -302,7 +302,13 @@ func describeObserved(v interface{}, ok bool) string {
 // emptinessLaws asserts the two laws for one merge step: before/after are the
 // observations of the target, aBefore is the model of what had been merged
 // into the target before, b the tree merged in this step.
-func emptinessLaws(res *harness.R, before, after obsv, aBefore, b *model.Node, pol model.Policy, desc func() string) {
+func emptinessLaws(res *harness.R, before, after obsv, aBefore, b *model.Node, pol model.Policy, desc func() string, suffix func() string) {
+	sfx := func() string {
+		if suffix == nil {
+			return ""
+		}
+		return suffix()
+	}
 	for _, p := range emptyListPaths(before) {
 		where, bHolds, claim := keptWhere(b, p, pol)
 		if !claim {
@@ -312,7 +318,7 @@ func emptinessLaws(res *harness.R, before, after obsv, aBefore, b *model.Node, p
 		res.SetAdd("empty_list_kept_class", pol.String()+":"+bHolds)
 		got, ok := lookup(after, where)
 		if !ok || !isEmptyList(got) {
-			res.Violate("empty-list-of-a-not-kept:b-holds-"+bHolds,
+			res.Violate("empty-list-of-a-not-kept:b-holds-"+bHolds+sfx(),
 				"the target unpacked to an empty list at %s before the merge, the source holds %s there, afterwards %s unpacks to %s; policy of the step=%v; %s",
 				pathString(p), bHolds, pathString(where), describeObserved(got, ok), pol, desc())
 		}
@@ -324,7 +330,7 @@ func emptinessLaws(res *harness.R, before, after obsv, aBefore, b *model.Node, p
 		res.SetAdd("empty_list_taken_class", pol.String()+":"+cl.aHolds)
 		got, ok := lookup(after, cl.path)
 		if !ok || !isEmptyList(got) {
-			res.Violate("empty-list-of-b-not-taken:a-holds-"+cl.aHolds,
+			res.Violate("empty-list-of-b-not-taken:a-holds-"+cl.aHolds+sfx(),
 				"the source holds an empty list at %s, the target held %s there, afterwards it unpacks to %s; policy of the step=%v; %s",
 				pathString(cl.path), cl.aHolds, describeObserved(got, ok), pol, desc())
 		}
